@@ -110,11 +110,41 @@ def _worker_init(modname):
         _MOD.worker_init()
 
 
+class TaskTimeout(BaseException):
+    pass
+
+
+def _task_alarm(signum, frame):
+    raise TaskTimeout()
+
+
+TASK_TIMEOUT = float(os.environ.get("VERIF_TASK_TIMEOUT", "1500"))
+
+
 def _worker_run(task):
+    """one shard; a shard that does not finish within TASK_TIMEOUT seconds is reported as a violation
+    ('the implementation did not terminate on ...'), never left hanging"""
     t0 = time.time()
+    own_timer = not getattr(_MOD, "OWN_WATCHDOG", False)
     try:
-        r = _MOD.run(task)
+        if own_timer:
+            signal.signal(signal.SIGALRM, _task_alarm)
+            signal.setitimer(signal.ITIMER_REAL, TASK_TIMEOUT)
+        try:
+            r = _MOD.run(task)
+        finally:
+            if own_timer:
+                signal.setitimer(signal.ITIMER_REAL, 0)
         r.extra["cpu_s"] = r.extra.get("cpu_s", 0) + (time.time() - t0)
+        return ("ok", task, r)
+    except TaskTimeout:
+        r = Result()
+        cur = getattr(_MOD, "CURRENT", None)
+        r.violation("non-termination-within-task-watchdog",
+                    {"task": repr(task)[:300], "current_input": cur if cur is None else repr(cur)[:400]},
+                    "shard %r did not finish within %.0f s; last input handed to the implementation: %r"
+                    % (task[0], TASK_TIMEOUT, cur if cur is None else repr(cur)[:200]))
+        r.extra["cpu_s"] = time.time() - t0
         return ("ok", task, r)
     except BaseException:
         return ("harness_error", task, traceback.format_exc())
